@@ -133,6 +133,8 @@ impl LogInnerManager {
                 last_term: pre_term,
                 ..Default::default()
             };
+            #[cfg(rnacos_verif)]
+            let header = crate::verif_hooks::patch_log_header(header);
             let data_buf = vec![0u8; 256];
             let mut stream = Cursor::new(data_buf);
             stream.write_be(&header)?;
